@@ -11,6 +11,7 @@
 #[cfg(not(kani))]
 use super::kani;
 use super::shadow;
+use super::shadow::unroll;
 use super::shadow::NV;
 use crate::basic_types::Inconsistency;
 use crate::basic_types::PropagationStatusCP;
@@ -31,11 +32,11 @@ use crate::engine::Assignments;
 use crate::engine::EmptyDomain;
 
 /// An arbitrary point of Z^NV (not necessarily inside the domains): the "v" of O2/O3.
-pub(crate) static mut V: [i32; NV] = [1, 0, 0, 0, 0, 0];
+pub(crate) static mut V: [i32; NV] = [1, 0, 0, 0, 0];
 /// sem(theta, V), computed by the harness from the reference semantics.
 pub(crate) static mut SEM_V: bool = false;
 /// A witness: the "w" of O1/O2.
-pub(crate) static mut W: [i32; NV] = [1, 0, 0, 0, 0, 0];
+pub(crate) static mut W: [i32; NV] = [1, 0, 0, 0, 0];
 /// W is inside the pre-state and satisfies the constraint.
 pub(crate) static mut W_OK: bool = false;
 /// Number of variables (ids 1..=NVARS) the harness uses.
@@ -49,33 +50,45 @@ pub(crate) static mut LAZY_RESOLVED: usize = 0;
 pub(crate) static mut PROPAGATOR: Option<*mut dyn Propagator> = None;
 
 /// Lazy reasons seen during the step, re-evaluated by `recheck_lazy` in the later state.
-pub(crate) const NLAZY: usize = 4;
+pub(crate) const NLAZY: usize = 2;
 pub(crate) static mut LAZY_CODE: [u64; NLAZY] = [0; NLAZY];
 pub(crate) static mut LAZY_PRED: [Option<Predicate>; NLAZY] = [None; NLAZY];
 pub(crate) static mut LAZY_REIF: [Option<Predicate>; NLAZY] = [None; NLAZY];
 pub(crate) static mut NLAZY_SEEN: usize = 0;
 
 /// Longest reason / conflict explanation the monitor accepts (longer ones fail the harness).
-pub(crate) const MAX_REASON: usize = 6;
+pub(crate) const MAX_REASON: usize = 5;
+
+/// `pt[d]` through a `match` instead of a symbolic array index (see shadow.rs on why).
+#[inline(always)]
+fn coordinate(pt: &[i32; NV], d: usize) -> i32 {
+    match d {
+        0 => pt[0],
+        1 => pt[1],
+        2 => pt[2],
+        3 => pt[3],
+        _ => pt[4],
+    }
+}
 
 pub(crate) fn holds_at(p: Predicate, pt: &[i32; NV]) -> bool {
     match p {
         Predicate::LowerBound {
             domain_id,
             lower_bound,
-        } => pt[domain_id.id as usize] >= lower_bound,
+        } => coordinate(pt, domain_id.id as usize) >= lower_bound,
         Predicate::UpperBound {
             domain_id,
             upper_bound,
-        } => pt[domain_id.id as usize] <= upper_bound,
+        } => coordinate(pt, domain_id.id as usize) <= upper_bound,
         Predicate::NotEqual {
             domain_id,
             not_equal_constant,
-        } => pt[domain_id.id as usize] != not_equal_constant,
+        } => coordinate(pt, domain_id.id as usize) != not_equal_constant,
         Predicate::Equal {
             domain_id,
             equality_constant,
-        } => pt[domain_id.id as usize] == equality_constant,
+        } => coordinate(pt, domain_id.id as usize) == equality_constant,
     }
 }
 
@@ -83,29 +96,25 @@ pub(crate) fn holds_at(p: Predicate, pt: &[i32; NV]) -> bool {
 pub(crate) fn pick_points(n: usize) {
     unsafe {
         NVARS = n;
-        let mut i = 1;
-        while i < NV {
+        unroll!(i in [1, 2, 3, 4] {
             if i <= n {
                 V[i] = kani::any();
                 W[i] = kani::any();
             }
-            i += 1;
-        }
+        });
     }
 }
 
 /// Is W inside the current shadow domains (variables 1..=NVARS)?
 pub(crate) fn w_in_domains() -> bool {
     let mut ok = true;
-    let mut i = 1;
-    while i < NV {
+    unroll!(i in [1, 2, 3, 4] {
         unsafe {
             if i <= NVARS && !shadow::contains(i, W[i]) {
                 ok = false;
             }
         }
-        i += 1;
-    }
+    });
     ok
 }
 
@@ -129,8 +138,7 @@ fn check_reason_slice(reason: &[Predicate], extra: Option<Predicate>, propagated
     // O3: sem(theta,V) /\ reason(V) => propagated(V) for the arbitrary point V.
     let mut all_hold_at_v = true;
     assert!(reason.len() <= MAX_REASON, "[HARNESS] reason longer than MAX_REASON");
-    let mut i = 0;
-    while i < MAX_REASON {
+    unroll!(i in [0, 1, 2, 3, 4] {
         if i < reason.len() {
             let p = reason[i];
             assert!(
@@ -141,8 +149,7 @@ fn check_reason_slice(reason: &[Predicate], extra: Option<Predicate>, propagated
                 all_hold_at_v = false;
             }
         }
-        i += 1;
-    }
+    });
     if let Some(p) = extra {
         assert!(
             assignments.is_predicate_satisfied(p),
@@ -196,8 +203,7 @@ fn resolve_lazy(code: u64, extra: Option<Predicate>, propagated: Predicate, assi
 /// Re-evaluate every lazy reason of this step in the current (later) state: this is what
 /// conflict analysis does.
 pub(crate) fn recheck_lazy(assignments: &Assignments) {
-    let mut i = 0;
-    while i < NLAZY {
+    unroll!(i in [0, 1] {
         unsafe {
             if i < NLAZY_SEEN {
                 if let Some(p) = LAZY_PRED[i] {
@@ -205,8 +211,7 @@ pub(crate) fn recheck_lazy(assignments: &Assignments) {
                 }
             }
         }
-        i += 1;
-    }
+    });
 }
 
 /// O1 / O2 for the outcome of one call into the propagator.
@@ -233,8 +238,7 @@ pub(crate) fn check_outcome(status: &PropagationStatusCP, assignments: &Assignme
             );
             let mut all_hold_at_v = true;
             assert!(nogood.len() <= MAX_REASON, "[HARNESS] conflict longer than MAX_REASON");
-            let mut i = 0;
-            while i < MAX_REASON {
+            unroll!(i in [0, 1, 2, 3, 4] {
                 if i < nogood.len() {
                     let p = nogood[i];
                     assert!(
@@ -245,8 +249,7 @@ pub(crate) fn check_outcome(status: &PropagationStatusCP, assignments: &Assignme
                         all_hold_at_v = false;
                     }
                 }
-                i += 1;
-            }
+            });
             assert!(
                 !(unsafe { SEM_V } && all_hold_at_v),
                 "[O2] conflict explanation is not sufficient: an assignment satisfies the constraint and every fact of the explanation"
@@ -276,8 +279,7 @@ pub(crate) fn check_init_outcome(
             );
             let mut all_hold_at_v = true;
             assert!(nogood.len() <= MAX_REASON, "[HARNESS] conflict longer than MAX_REASON");
-            let mut i = 0;
-            while i < MAX_REASON {
+            unroll!(i in [0, 1, 2, 3, 4] {
                 if i < nogood.len() {
                     let p = nogood[i];
                     assert!(
@@ -288,8 +290,7 @@ pub(crate) fn check_init_outcome(
                         all_hold_at_v = false;
                     }
                 }
-                i += 1;
-            }
+            });
             assert!(
                 !(unsafe { SEM_V } && all_hold_at_v),
                 "[O2] root conflict explanation is not sufficient"
@@ -340,8 +341,7 @@ pub(crate) mod watch_table {
         events: enumset::EnumSet<IntDomainEvent>,
         local_id: LocalId,
     ) {
-        let mut e = 0;
-        while e < 4 {
+        unroll!(e in [0, 1, 2, 3] {
             if events.contains(EVENTS[e]) {
                 let slot = &mut table[domain][e];
                 assert!(
@@ -350,8 +350,7 @@ pub(crate) mod watch_table {
                 );
                 *slot = local_id.unpack() + 1;
             }
-            e += 1;
-        }
+        });
     }
 }
 
